@@ -172,13 +172,24 @@ def handle (op : String) (args : List String) : Option String :=
 * `clone_from A B` — `b.clone_from(&a)`: the array `a`;
 * `hclo op args…` — huge arrays: the list-backed transcript model is quadratic (49 s for 90 000 elements), the driver answers
   `ok native` and the harness judges by its native reference transcript, which it validates against `handle` on every other
-  closure case of the run (`audit` line). -/
+  closure case of the run (`audit` line);
+* `folds ARR CLO INIT STY` — round 5: `fold` with an accumulator of type STY whose seed is the special value (NaN, ±inf, -0.0, …)
+  encoded by the integer INIT (floats: the bit pattern); the harness's closure decodes / encodes the accumulator around the model's
+  `step`, so the model's transcript is the one of `fold ARR CLO INIT` over the integers;
+* `giant …` — u8 arrays above 2^20 / 2^24 elements, judged in place by the harness (its in-place judge runs in shadow on every
+  ordinary closure case that `handle` answers); `frexpn` / `ldexpn` / `roundtripn` — dense value sweeps judged by the harness's
+  field-based float reference, which it validates against `handle` on every ordinary frexp / ldexp / roundtrip case of the run. -/
 def handleX (op : String) (args : List String) : Option String :=
   match op, args with
   | "re", _inner :: _target :: op' :: rest => handle op' rest
   | "collect_h", [l, _mode] => handle "collect" [l]
   | "clone_from", [a, _b] => do let a ← parseArr? a; some ("ok " ++ showArr a)
   | "hclo", _ => some "ok native"
+  | "folds", [a, p, init, _sty] => handle "fold" [a, p, init]
+  | "giant", _ => some "ok native"
+  | "frexpn", _ => some "ok native"
+  | "ldexpn", _ => some "ok native"
+  | "roundtripn", _ => some "ok native"
   | "audit", [] => some "ok audit"
   | _, _ => handle op args
 
